@@ -21,6 +21,8 @@ type Env struct {
 	inBody  bool // identifiers may denote the current value of local cells
 	bound   map[string]*Value
 	failed  bool
+	fuelFn   string          // while translating this function's axioms: applications other than the trigger use the twin symbol
+	fuelTrig map[string]bool
 	outerBinders string // placeholder for binders to be merged into the outermost forall
 	outerUsed    bool
 }
@@ -333,21 +335,33 @@ func (e *Env) evalAddr(x Expr) *LValue {
 			base = g.lvOf(e.fr, e.st, xv)
 		}
 		pkg := g.W.TypesPkgs[e.pkgPath]
-		path, ft, _, ok := fieldPath(base.T, n.Name, pkg)
-		if !ok {
-			// try regardless of package (exported through embedding etc.)
+		obj, index, _ := types.LookupFieldOrMethod(base.T, true, pkg, n.Name)
+		if _, isVar := obj.(*types.Var); !isVar {
 			if nt, isNamed := types.Unalias(base.T).(*types.Named); isNamed && nt.Obj().Pkg() != nil {
-				path, ft, _, ok = fieldPath(base.T, n.Name, nt.Obj().Pkg())
+				obj, index, _ = types.LookupFieldOrMethod(base.T, true, nt.Obj().Pkg(), n.Name)
 			}
 		}
-		if !ok {
+		if _, isVar := obj.(*types.Var); !isVar {
 			e.fail("no field %s in %s", n.Name, typeKey(base.T))
 			return nil
 		}
-		nlv := *base
-		nlv.Path = base.Path + path
-		nlv.T = ft
-		return &nlv
+		cur := *base
+		for _, idx := range index {
+			// hop through an embedded pointer: load it and continue in the pointee
+			if _, isPtr := types.Unalias(cur.T).Underlying().(*types.Pointer); isPtr {
+				pv := g.load(e.st, &cur)
+				cur = *g.lvOf(e.fr, e.st, pv)
+			}
+			st, oks := types.Unalias(cur.T).Underlying().(*types.Struct)
+			if !oks {
+				e.fail("field path of %s leaves struct types", n.Name)
+				return nil
+			}
+			f := st.Field(idx)
+			cur.Path += "." + f.Name()
+			cur.T = f.Type()
+		}
+		return &cur
 	case *Index:
 		xv := e.eval(n.X)
 		if xv.T == nil {
@@ -610,6 +624,9 @@ func (e *Env) evalQuant(n *Quant) *Value {
 			name := base + sanitize(l.Path)
 			decls = append(decls, fmt.Sprintf("(%s %s)", name, l.Sort))
 			val.L[i] = name
+		}
+		for i, l := range sh {
+			name := val.L[i]
 			switch l.Kind {
 			case "int":
 				if lo, hi, _, _, ok := intRange(l.T); ok && !(v.T.Kind == "name" && (v.T.Name == "int" || v.T.Name == "mathint")) {
@@ -618,7 +635,7 @@ func (e *Env) evalQuant(n *Quant) *Value {
 			case "ref", "obj", "val", "str":
 				guards = append(guards, fmt.Sprintf("(<= 0 %s)", name))
 			case "len":
-				guards = append(guards, fmt.Sprintf("(and (<= 0 %s) (<= 0 %s) (<= %s %s) (<= %s %s))", val.L[i-1], name, name, base+"@cap", base+"@cap", maxSliceLen))
+				guards = append(guards, fmt.Sprintf("(and (<= 0 %s) (<= 0 %s) (<= %s %s) (<= %s %s))", val.L[i-1], name, name, val.L[i+1], val.L[i+1], maxSliceLen))
 			case "tag":
 				guards = append(guards, fmt.Sprintf("(<= 0 %s)", name))
 			}
@@ -630,8 +647,41 @@ func (e *Env) evalQuant(n *Quant) *Value {
 	}
 	// facts generated while translating the body would mention bound variables: suppress them
 	g.dryFacts++
+	var autoPats []string
+	if len(n.Trig) == 0 {
+		// robust triggers: a bound integer i used as s[i] is re-expressed as the absolute position
+		// j = off(s)+i in the backing array, and the element read at j becomes the pattern
+		for _, v := range n.Vars {
+			bv := sub.bound[v.Name]
+			if bv == nil || !bv.Math || len(bv.L) != 1 {
+				continue
+			}
+			anchor := findIndexAnchor(n.Body, v.Name, n.Vars)
+			if anchor == nil {
+				continue
+			}
+			sv := sub.eval(anchor)
+			if sub.failed || sv.T == nil || len(sv.L) != 4 {
+				sub.failed = false
+				continue
+			}
+			sl, ok := types.Unalias(sv.T).Underlying().(*types.Slice)
+			if !ok {
+				continue
+			}
+			j := bv.L[0]
+			sub.bound[v.Name] = mathVal("(- " + j + " " + sv.L[1] + ")")
+			esh := g.W.shapes.shape(sl.Elem())
+			if len(esh) >= 1 {
+				key := g.elemCompKey(sl.Elem(), esh[0].Path)
+				c := g.compTerm(sub.st, key, arrSort(sInt, arrSort(sInt, esh[0].Sort)))
+				autoPats = append(autoPats, ":pattern ("+smtSel(smtSel(c, sv.L[0]), j)+")")
+			}
+		}
+	}
 	body := sub.evalBool(n.Body)
 	var pats []string
+	pats = append(pats, autoPats...)
 	for _, tr := range n.Trig {
 		var ts []string
 		for _, t := range tr {
@@ -643,6 +693,33 @@ func (e *Env) evalQuant(n *Quant) *Value {
 	g.dryFacts--
 	if sub.failed {
 		e.failed = true
+	}
+	// binders that occur neither in the body nor in a pattern are dropped (with their range guards)
+	{
+		allText := []string{body}
+		allText = append(allText, pats...)
+		var kd, kg []string
+		for _, d := range decls {
+			name := strings.Fields(d[1:])[0]
+			if occursIn(allText, name) {
+				kd = append(kd, d)
+			}
+		}
+		for _, gd := range guards {
+			keep := true
+			for _, d := range decls {
+				name := strings.Fields(d[1:])[0]
+				if occursIn([]string{gd}, name) && !occursIn(allText, name) {
+					keep = false
+				}
+			}
+			if keep {
+				kg = append(kg, gd)
+			}
+		}
+		if len(kd) > 0 {
+			decls, guards = kd, kg
+		}
 	}
 	q := "forall"
 	if n.Forall {
@@ -785,6 +862,12 @@ func (e *Env) evalCall(n *Call) *Value {
 	for _, a := range n.Args {
 		args = append(args, e.eval(a))
 	}
+	if e.fuelFn == sf.Name && !e.fuelTrig[exprString(n)] {
+		e.g.useTwin = true
+		v := e.applySpec(sf, args)
+		e.g.useTwin = false
+		return v
+	}
 	return e.applySpec(sf, args)
 }
 
@@ -792,7 +875,7 @@ func (e *Env) evalCall(n *Call) *Value {
 // their arguments and of the memory components their axioms read.
 func (e *Env) applySpec(sf *SpecFunc, args []*Value) *Value {
 	g := e.g
-	if sf.Body != nil {
+	if sf.Body != nil && !sf.isRecursive() {
 		sub := &Env{g: g, st: e.st, old: e.old, vars: map[string]*Value{}, pkgPath: sf.PkgPath, bound: e.bound}
 		for i, p := range sf.Params {
 			sub.vars[p.Name] = e.coerceArg(sf, p, args[i])
@@ -816,6 +899,7 @@ func (e *Env) applySpec(sf *SpecFunc, args []*Value) *Value {
 	for _, k := range info.heap {
 		in = append(in, g.compTerm(e.st, k, g.compSort[k]))
 	}
+	g.recordHeap(e.st, in)
 	for i, p := range sf.Params {
 		a := e.coerceArg(sf, p, args[i])
 		if len(a.L) != info.argLeaves[i] {
@@ -834,6 +918,9 @@ func (e *Env) applySpec(sf *SpecFunc, args []*Value) *Value {
 		v.T = mathInt
 	}
 	for i, fn := range info.retNames {
+		if g.useTwin && info.twin {
+			fn += "$0"
+		}
 		if len(in) == 0 {
 			v.L[i] = fn
 		} else {
@@ -870,6 +957,7 @@ type specInfo struct {
 	allSorts  [][]string
 	math      bool
 	declared  bool
+	twin      bool // a second symbol f$0 exists: unfolding axioms define f in terms of f$0 (no matching loop)
 }
 
 func (g *Gen) specParamType(sf *SpecFunc, tx *TypeX) (types.Type, bool, error) {
@@ -905,7 +993,7 @@ func (g *Gen) specInfo(sf *SpecFunc) *specInfo {
 		var used []bool
 		for _, l := range sh {
 			names = append(names, "a."+sanitize(p.Name+l.Path))
-			used = append(used, len(sh) < 2 || len(sf.Axioms) == 0)
+			used = append(used, len(sh) < 2 || (len(sf.Axioms) == 0 && !(sf.Body != nil && sf.isRecursive())))
 		}
 		info.argNames = append(info.argNames, names)
 		info.argUsed = append(info.argUsed, used)
@@ -926,6 +1014,17 @@ func (g *Gen) specInfo(sf *SpecFunc) *specInfo {
 	for _, l := range g.W.shapes.shape(rt) {
 		info.retNames = append(info.retNames, "sf."+sf.Name+sanitize(l.Path))
 		info.retSorts = append(info.retSorts, l.Sort)
+	}
+	for _, ax := range sf.Axioms {
+		if q, ok := ax.E.(*Quant); ok && len(q.Trig) > 0 {
+			for _, tr := range q.Trig {
+				for _, t := range tr {
+					if c, ok := t.(*Call); ok && c.Fun == sf.Name {
+						info.twin = true
+					}
+				}
+			}
+		}
 	}
 	// heap dependencies: fixpoint over the axioms translated with a symbolic heap
 	var lastTexts []string
@@ -967,12 +1066,43 @@ func (g *Gen) specInfo(sf *SpecFunc) *specInfo {
 		sorts = append(sorts, g.compSort[k])
 	}
 	sorts = append(sorts, info.argSorts...)
-	for i, fn := range info.retNames {
-		g.decl(fmt.Sprintf("(declare-fun %s (%s) %s)", fn, strings.Join(sorts, " "), info.retSorts[i]))
+	if !(sf.Body != nil && sf.isRecursive()) {
+		for i, fn := range info.retNames {
+			g.decl(fmt.Sprintf("(declare-fun %s (%s) %s)", fn, strings.Join(sorts, " "), info.retSorts[i]))
+			if info.twin {
+				g.decl(fmt.Sprintf("(declare-fun %s$0 (%s) %s)", fn, strings.Join(sorts, " "), info.retSorts[i]))
+			}
+		}
+	}
+	if info.twin {
+		// synonym axiom: f == f$0, triggered only by f-terms
+		var bs, as []string
+		hv := map[string]string{}
+		for _, k := range info.heap {
+			n := "H." + sanitize(k)
+			hv[k] = n
+			as = append(as, n)
+		}
+		for i, srt := range info.argSorts {
+			n := fmt.Sprintf("x%d", i)
+			bs = append(bs, fmt.Sprintf("(%s %s)", n, srt))
+			as = append(as, n)
+		}
+		for _, fn := range info.retNames {
+			app := "(" + fn + " " + strings.Join(as, " ") + ")"
+			app0 := "(" + fn + "$0 " + strings.Join(as, " ") + ")"
+			if len(bs) > 0 {
+				g.heapAxioms = append(g.heapAxioms, heapAxiom{text: fmt.Sprintf("(forall (%s) (! (= %s %s) :pattern (%s)))", strings.Join(bs, " "), app, app0, app), vars: hv})
+			}
+		}
 	}
 	info.declared = true
 	sym := &symHeap{vars: map[string]string{}}
+	nd := len(g.recDefs)
 	g.translateAxioms(sf, info, sym, true)
+	for _, d := range g.recDefs[nd:] {
+		g.decl(d)
+	}
 	return info
 }
 
@@ -1009,6 +1139,9 @@ func occursIn(texts []string, name string) bool {
 }
 
 func (g *Gen) translateAxioms(sf *SpecFunc, info *specInfo, sym *symHeap, emit bool) (texts []string) {
+	if sf.Body != nil && sf.isRecursive() {
+		return g.translateRecDef(sf, info, sym, emit)
+	}
 	for _, ax := range sf.Axioms {
 		symState := &State{cells: map[*ssa.Alloc][]string{}, comps: map[string]string{}, alloc: "0", reach: "true", iters: map[ssa.Value]string{}}
 		g.symStack = append(g.symStack, sym)
@@ -1032,6 +1165,15 @@ func (g *Gen) translateAxioms(sf *SpecFunc, info *specInfo, sym *symHeap, emit b
 		}
 		const ph = "<<BINDERS>>"
 		env.outerBinders = ph
+		if q, ok := ax.E.(*Quant); ok && info.twin && len(q.Trig) > 0 {
+			env.fuelFn = sf.Name
+			env.fuelTrig = map[string]bool{}
+			for _, tr := range q.Trig {
+				for _, t := range tr {
+					env.fuelTrig[exprString(t)] = true
+				}
+			}
+		}
 		g.dryFacts++
 		save := g.dry
 		if !emit {
@@ -1050,9 +1192,10 @@ func (g *Gen) translateAxioms(sf *SpecFunc, info *specInfo, sym *symHeap, emit b
 		texts = append(texts, t)
 		if emit {
 			var bs []string
+			hv := map[string]string{}
 			for _, k := range sortedKeys(sym.vars) {
 				if occursIn([]string{t}, sym.vars[k]) {
-					bs = append(bs, fmt.Sprintf("(%s %s)", sym.vars[k], g.compSort[k]))
+					hv[k] = sym.vars[k]
 				}
 			}
 			for _, pd := range pdecls {
@@ -1062,12 +1205,295 @@ func (g *Gen) translateAxioms(sf *SpecFunc, info *specInfo, sym *symHeap, emit b
 				}
 			}
 			if env.outerUsed {
-				t = strings.Replace(t, ph, strings.Join(bs, " "), 1)
+				if len(bs) == 0 {
+					// no parameter is used: drop the placeholder (and the separating blank)
+					t = strings.Replace(t, ph+" ", "", 1)
+				} else {
+					t = strings.Replace(t, ph, strings.Join(bs, " "), 1)
+				}
 			} else if len(bs) > 0 {
 				t = fmt.Sprintf("(forall (%s) %s)", strings.Join(bs, " "), t)
 			}
-			g.specAxioms = append(g.specAxioms, t)
+			g.heapAxioms = append(g.heapAxioms, heapAxiom{text: t, vars: hv})
 		}
 	}
 	return texts
+}
+
+func (sf *SpecFunc) isRecursive() bool {
+	if sf.recKnown {
+		return sf.rec
+	}
+	sf.recKnown = true
+	sf.rec = mentionsCall(sf.Body, sf.Name)
+	return sf.rec
+}
+
+func mentionsCall(e Expr, name string) bool {
+	switch x := e.(type) {
+	case *Call:
+		if x.Fun == name {
+			return true
+		}
+		for _, a := range x.Args {
+			if mentionsCall(a, name) {
+				return true
+			}
+		}
+	case *Unary:
+		return mentionsCall(x.X, name)
+	case *Binary:
+		return mentionsCall(x.X, name) || mentionsCall(x.Y, name)
+	case *Cond:
+		return mentionsCall(x.C, name) || mentionsCall(x.A, name) || mentionsCall(x.B, name)
+	case *Field:
+		return mentionsCall(x.X, name)
+	case *Index:
+		return mentionsCall(x.X, name) || mentionsCall(x.I, name)
+	case *SliceE:
+		return mentionsCall(x.X, name) || (x.Lo != nil && mentionsCall(x.Lo, name)) || (x.Hi != nil && mentionsCall(x.Hi, name))
+	case *Deref:
+		return mentionsCall(x.X, name)
+	case *Quant:
+		return mentionsCall(x.Body, name)
+	case *Cast:
+		return mentionsCall(x.X, name)
+	case *TypeIs:
+		return mentionsCall(x.X, name)
+	}
+	return false
+}
+
+// translateRecDef handles `spec func f(..) T = <body mentioning f>`: a recursive definition, emitted as
+// define-fun-rec whose formals are the memory components it reads followed by its argument leaves.
+func (g *Gen) translateRecDef(sf *SpecFunc, info *specInfo, sym *symHeap, emit bool) (texts []string) {
+	symState := &State{cells: map[*ssa.Alloc][]string{}, comps: map[string]string{}, alloc: "0", reach: "true", iters: map[ssa.Value]string{}}
+	g.symStack = append(g.symStack, sym)
+	g.symStates = append(g.symStates, symState)
+	env := &Env{g: g, st: symState, old: symState, vars: map[string]*Value{}, pkgPath: sf.PkgPath, bound: map[string]*Value{}}
+	type formal struct{ name, sort string }
+	var formals [][]formal
+	for _, p := range sf.Params {
+		t, math, err := g.specParamType(sf, p.T)
+		if err != nil {
+			continue
+		}
+		sh := g.W.shapes.shape(t)
+		v := &Value{T: t, L: make([]string, len(sh)), Math: math}
+		var fs []formal
+		for i, l := range sh {
+			n := "a." + sanitize(p.Name+l.Path)
+			v.L[i] = n
+			fs = append(fs, formal{n, l.Sort})
+		}
+		formals = append(formals, fs)
+		env.bound[p.Name] = v
+	}
+	g.dryFacts++
+	save := g.dry
+	if !emit {
+		g.dry++
+	}
+	body := env.eval(sf.Body)
+	g.dry = save
+	g.dryFacts--
+	g.symStack = g.symStack[:len(g.symStack)-1]
+	g.symStates = g.symStates[:len(g.symStates)-1]
+	if len(body.L) != len(info.retNames) {
+		g.errorf("spec func %s: recursive body has %d leaves, declared result has %d", sf.Name, len(body.L), len(info.retNames))
+		return nil
+	}
+	texts = append(texts, body.L...)
+	if emit {
+		var fs []string
+		for _, k := range info.heap {
+			fs = append(fs, fmt.Sprintf("(%s %s)", sym.get(k), g.compSort[k]))
+		}
+		for i, pf := range formals {
+			for j, f := range pf {
+				if info.argUsed[i][j] {
+					fs = append(fs, fmt.Sprintf("(%s %s)", f.name, f.sort))
+				}
+			}
+		}
+		for i, fn := range info.retNames {
+			g.recDefs = append(g.recDefs, fmt.Sprintf("(define-fun-rec %s (%s) %s %s)", fn, strings.Join(fs, " "), info.retSorts[i], body.L[i]))
+		}
+	}
+	return texts
+}
+
+func (s *symHeap) get(k string) string {
+	if v, ok := s.vars[k]; ok {
+		return v
+	}
+	v := "H." + sanitize(k)
+	s.vars[k] = v
+	return v
+}
+
+// heapAxiom is an axiom or lemma whose text mentions memory components through placeholder
+// variables; it is instantiated at every heap that spec functions are actually applied to.
+type heapAxiom struct {
+	text string
+	vars map[string]string // component key -> placeholder variable
+}
+
+func (g *Gen) recordHeap(st *State, sigTerms []string) {
+	if n := len(g.symStates); n > 0 && st == g.symStates[n-1] {
+		return
+	}
+	sig := strings.Join(sigTerms, "|")
+	if g.heapSigs == nil {
+		g.heapSigs = map[string]bool{}
+	}
+	if g.heapSigs[sig] {
+		return
+	}
+	g.heapSigs[sig] = true
+	snap := make(map[string]string, len(st.comps))
+	for k, v := range st.comps {
+		snap[k] = v
+	}
+	g.heapSnaps = append(g.heapSnaps, snap)
+}
+
+// finalAxioms instantiates every heap-dependent axiom at every recorded heap.
+func (g *Gen) finalAxioms() []string {
+	out := append([]string{}, g.specAxioms...)
+	seen := map[string]bool{}
+	for _, a := range out {
+		seen[a] = true
+	}
+	for _, ha := range g.heapAxioms {
+		if len(ha.vars) == 0 {
+			if !seen[ha.text] {
+				seen[ha.text] = true
+				out = append(out, ha.text)
+			}
+			continue
+		}
+		for _, snap := range g.heapSnaps {
+			st := &State{comps: snap}
+			t := ha.text
+			for _, k := range sortedKeys(ha.vars) {
+				t = replaceToken(t, ha.vars[k], g.compTerm(st, k, g.compSort[k]))
+			}
+			if !seen[t] {
+				seen[t] = true
+				out = append(out, t)
+			}
+		}
+	}
+	return out
+}
+
+// replaceToken replaces whole-token occurrences of name (delimited by blank or parenthesis).
+func replaceToken(t, name, by string) string {
+	var sb strings.Builder
+	for i := 0; i < len(t); {
+		j := strings.Index(t[i:], name)
+		if j < 0 {
+			sb.WriteString(t[i:])
+			break
+		}
+		end := i + j + len(name)
+		sb.WriteString(t[i : i+j])
+		if end >= len(t) || t[end] == ' ' || t[end] == ')' {
+			sb.WriteString(by)
+		} else {
+			sb.WriteString(name)
+		}
+		i = end
+	}
+	return sb.String()
+}
+
+// findIndexAnchor returns a slice expression X such that the body contains X[v] and X does not
+// mention any variable bound by the same quantifier.
+func findIndexAnchor(e Expr, v string, bound []SParam) Expr {
+	var found Expr
+	mentions := func(x Expr) bool {
+		for _, b := range bound {
+			if mentionsIdent(x, b.Name) {
+				return true
+			}
+		}
+		return false
+	}
+	var walk func(e Expr)
+	walk = func(e Expr) {
+		if found != nil || e == nil {
+			return
+		}
+		switch x := e.(type) {
+		case *Index:
+			if id, ok := x.I.(*Ident); ok && id.Name == v && !mentions(x.X) {
+				found = x.X
+				return
+			}
+			walk(x.X)
+			walk(x.I)
+		case *Unary:
+			walk(x.X)
+		case *Binary:
+			walk(x.X)
+			walk(x.Y)
+		case *Cond:
+			walk(x.C)
+			walk(x.A)
+			walk(x.B)
+		case *Call:
+			if x.Fun == "old" {
+				return // anchors inside old() live in another state
+			}
+			for _, a := range x.Args {
+				walk(a)
+			}
+		case *Field:
+			walk(x.X)
+		case *Deref:
+			walk(x.X)
+		case *Quant:
+			walk(x.Body)
+		case *SliceE:
+			walk(x.X)
+		}
+	}
+	walk(e)
+	return found
+}
+
+func mentionsIdent(e Expr, name string) bool {
+	switch x := e.(type) {
+	case *Ident:
+		return x.Name == name
+	case *Unary:
+		return mentionsIdent(x.X, name)
+	case *Binary:
+		return mentionsIdent(x.X, name) || mentionsIdent(x.Y, name)
+	case *Cond:
+		return mentionsIdent(x.C, name) || mentionsIdent(x.A, name) || mentionsIdent(x.B, name)
+	case *Call:
+		for _, a := range x.Args {
+			if mentionsIdent(a, name) {
+				return true
+			}
+		}
+	case *Field:
+		return mentionsIdent(x.X, name)
+	case *Index:
+		return mentionsIdent(x.X, name) || mentionsIdent(x.I, name)
+	case *SliceE:
+		return mentionsIdent(x.X, name) || (x.Lo != nil && mentionsIdent(x.Lo, name)) || (x.Hi != nil && mentionsIdent(x.Hi, name))
+	case *Deref:
+		return mentionsIdent(x.X, name)
+	case *Quant:
+		return mentionsIdent(x.Body, name)
+	case *Cast:
+		return mentionsIdent(x.X, name)
+	case *TypeIs:
+		return mentionsIdent(x.X, name)
+	}
+	return false
 }
